@@ -87,6 +87,7 @@ class MarketSpec:
             inplay=self.inplay0,
             bet_delay=self.bet_delay,
             bsp_rec=False,
+            mt_off=self.market_time_offset_s,
             runners={
                 s: dict(status="ACTIVE", af=round(100.0 / len(self.sels), 2), bsp=None, rd=None)
                 for s in self.sels
@@ -108,8 +109,8 @@ class MarketSpec:
                 "numberOfWinners": self.nwin,
                 "bettingType": self.betting_type,
                 "marketType": self.market_type,
-                "marketTime": iso(self.t0 + self.market_time_offset_s * 1000),
-                "suspendTime": iso(self.t0 + self.market_time_offset_s * 1000),
+                "marketTime": iso(self.t0 + st["mt_off"] * 1000),
+                "suspendTime": iso(self.t0 + st["mt_off"] * 1000),
                 "bspReconciled": st["bsp_rec"],
                 "complete": True,
                 "inPlay": st["inplay"],
@@ -234,6 +235,10 @@ class MarketSpec:
                     for p in list(st[side][s]):
                         e.setdefault(side, []).append([p, 0])
                     st[side][s] = {}
+            elif k == "MT":  # ["MT", seconds]: the scheduled start is moved (delayed > 0 / brought forward < 0)
+                st["mt_off"] += ev[1]
+                st["version"] += 1
+                flags["md"] = True
             elif k == "AF":  # ["AF", {sel: adjustment factor}]: the exchange re-bases the remaining runners' factors
                 for sel, af in ev[1].items():
                     st["runners"][key(int(sel) if not isinstance(sel, (tuple, list)) and not (isinstance(sel, str) and ":" in sel) else sel)]["af"] = af
